@@ -87,7 +87,7 @@ Fixpoint fill (n : nat) (a : adapter) (t : nat) (w : world) : adapter * option t
   match n with
   | O => (a, None, emit EOutOfFuel w)
   | S n' =>
-      if Nat.ltb (q_running (ad_q a)) (q_cap (ad_q a)) then
+      if Nat.ltb (q_len (ad_q a)) (q_cap (ad_q a)) then
         match ad_up a with
         | Some u =>
             let '(u, r, w) := up_poll (ad_try a) u t w in
@@ -125,7 +125,7 @@ Definition adapter_hint (a : adapter) : nat * option nat :=
   match ad_up a with
   | Some u => let '(lo, hi) := up_hint (ad_try a) u in
               (lo + ql, match hi with Some x => Some (x + ql) | None => None end)
-  | None => if ad_try a then (0, Some 0) else (ql, Some ql)
+  | None => (ql, Some ql)
   end.
 
 (** ** for_each_concurrent *)
@@ -184,6 +184,25 @@ Definition join_new (try : bool) (l : list child) (w : world) : join * world :=
 
 Definition cell_tok (o : option tok) : tok := match o with Some t => t | None => TGarbage end.
 
+(** dropping the outputs written so far: the code decides "written" by "slot vacant and not
+    the failed one"; a cell that was in fact never written shows as [TGarbage] *)
+Fixpoint drop_outputs_from (i : nat) (skip : option nat) (m : slotmap) (out : list (option tok)) (w : world) : world :=
+  match out with
+  | [] => w
+  | o :: rest =>
+      let skipped := match skip with Some s => Nat.eqb s i | None => false end in
+      let w := if skipped then w
+               else match sm_get m i with
+                    | None => emit (EODrop (cell_tok o) true) w
+                    | Some _ => w
+                    end in
+      drop_outputs_from (S i) skip m rest w
+  end.
+
+(** cancelling the remaining futures: [tasks.remove(i)] for every slot in order *)
+Definition fub_clear (f : fub) (w : world) : fub * world :=
+  fold_left (fun fw i => fub_remove (fst fw) i (snd fw)) (seq 0 (fub_cap f)) (f, w).
+
 Fixpoint join_loop (n : nat) (j : join) (t : nat) (w : world) : join * retv * world :=
   match n with
   | O => (j, RetPending, emit EOutOfFuel w)
@@ -191,7 +210,9 @@ Fixpoint join_loop (n : nat) (j : join) (t : nat) (w : world) : join * retv * wo
       let '(f, pr, w) := poll_inner P (if j_try j then KTry else KFut) (j_q j) t w in
       match pr with
       | PReady i c RX =>
-          ({| j_try := j_try j; j_q := f; j_out := j_out j |}, RetErr (TErr (cid c)), w)
+          let w := drop_outputs_from 0 (Some i) (tasks f) (j_out j) w in
+          let '(f, w) := fub_clear f w in
+          ({| j_try := j_try j; j_q := f; j_out := [] |}, RetErr (TErr (cid c)), w)
       | PReady i c _ =>
           join_loop n' {| j_try := j_try j; j_q := f; j_out := upd (j_out j) i (Some (TOut (cid c))) |} t w
       | PNone =>
@@ -215,5 +236,7 @@ Definition adapter_drop (a : adapter) (w : world) : world :=
 Definition fec_drop (a : fec) (w : world) : world :=
   fub_drop (fe_q a) (match fe_up a with Some _ => emit EUpDrop w | None => w end).
 
-(** [Box<[MaybeUninit<T>]>] drops nothing *)
-Definition join_drop (j : join) (w : world) : world := fub_drop (j_q j) w.
+(** [Drop for JoinAll / TryJoinAll]: the written outputs, then the fields (the queue; the
+    [Box<[MaybeUninit<T>]>] itself drops nothing) *)
+Definition join_drop (j : join) (w : world) : world :=
+  fub_drop (j_q j) (drop_outputs_from 0 None (tasks (j_q j)) (j_out j) w).
